@@ -51,6 +51,20 @@ end
 def Coh (t : Node) : Prop :=
   ∀ a ∈ occS t, ∀ b ∈ occS t, a.setSid? = b.setSid? → a = b
 
+mutual
+  /-- `attrpath_order` unused everywhere, every attrpath family non-empty and made of bindings only:
+      the shape of a set built through the API (`AttributeSet(values=…)`, `from_dict`, `__setitem__`) -/
+  def valuesMode : Node → Bool
+    | .set _ vs o _ _ => o.isEmpty && valuesModeL vs
+    | .bind _ _ false v _ _ => valuesMode v
+    | .bind _ _ true (.set _ vs o _ _) _ _ => o.isEmpty && !vs.isEmpty && vs.all isBind && valuesModeL vs
+    | .bind _ _ true _ _ _ => false
+    | _ => true
+  def valuesModeL : List Node → Bool
+    | [] => true
+    | x :: xs => valuesMode x && valuesModeL xs
+end
+
 /-- a key that `AttributeSet.__getitem__` does not read as a dotted path (`a.b`): the file-side
     splitter `_split_attrpath` sees at most one segment in it. Every identifier is one; so is every
     quoted spelling `_format_attr_name` writes (dots inside quotes do not split) — the latter is
